@@ -165,6 +165,7 @@ def impl_record(sc, envF, envP, st, a, uval, frame_log):
 
 
 REVISIT = 4
+ARBITRARY = 6
 
 
 def explore(sc, max_states, res):
@@ -225,6 +226,26 @@ def explore(sc, max_states, res):
             queries.append(q)
             records.append(rec)
             meta.append(outcome_class(a, info))
+    # fourth pass: arbitrary states. The theorems quantify over every state with distinct addresses
+    # and access <= ROOT, not only over reachable ones, and `generative_step` accepts any state:
+    # rows with random compromised / reachable / discovered flags and access levels reach the
+    # branches no history from the initial state leads to (e.g. a compromised host without access)
+    rng = random.Random(len(queries) * 7919 + len(sc.hosts))
+    for _ in range(ARBITRARY):
+        st = s0.copy()
+        for addr in envF.network.address_space:
+            h = st.get_host(addr)
+            h.compromised = rng.random() < 0.5
+            h.reachable = rng.random() < 0.6
+            h.discovered = rng.random() < 0.6
+            h.access = rng.choice([0, 0, 1, 2])
+        d0 = C.dyn_of(envF, st)
+        for a, tk in zip(acts, toks):
+            for uval in (0.0, float(np.nextafter(1.0, 0.0))):
+                rec, ns, info = impl_record(sc, envF, envP, st, a, uval, frame_log)
+                queries.append("Q " + " ".join(map(str, d0 + tk + [C.fr(uval)])))
+                records.append(rec)
+                meta.append(outcome_class(a, info))
     res["frame_violations"] += [dict(what=w) for w in sorted(set(frame_log))]
     return queries, records, meta, len(seen), envF
 
@@ -586,6 +607,15 @@ BUDGET = {"quick": dict(n_random=56, max_states=120, walk_len=50, bench=["tiny@0
                            bench_states=3, bench_walk=300)}
 
 
+def stamp_cases(findings, tasks):
+    by_idx = {t[1]: t for t in tasks}
+    for f in findings:
+        idx = f.get("replay", {}).get("scenario_index")
+        if idx in by_idx:
+            f["replay"]["case"] = dict(suite="dyn", fn="run_scenario", task=list(by_idx[idx]))
+    return findings
+
+
 def run(tier, seed):
     import runner
     b = BUDGET[tier]
@@ -606,7 +636,7 @@ def run(tier, seed):
                 untranslatable=sum(r["untranslatable"] for r in rs),
                 outcomes=dict(outcomes), distinct_outcome_classes=len(outcomes),
                 shapes=dict(shapes), hosts_hist=dict(hosts),
-                findings=attribute(rs), errors=errors, samples=samples)
+                findings=stamp_cases(attribute(rs), tasks), errors=errors, samples=samples)
 
 
 if __name__ == "__main__":
